@@ -204,7 +204,9 @@ PeerConnectionMetadata::event_read() {
         while (read_message())
           ; // Do nothing.
 
-        if (m_down->buffer()->size_end() == ProtocolRead::buffer_size) {
+        // Also go on when a message switched the read state, its payload
+        // and later messages may already be in the buffer.
+        if (m_down->buffer()->size_end() == ProtocolRead::buffer_size || m_down->get_state() != ProtocolRead::IDLE) {
           m_down->buffer()->move_unused();
           break;
         } else {
